@@ -5,6 +5,7 @@
 package refsrv
 
 import (
+	"crypto/sha3"
 	"bytes"
 	"context"
 	"crypto"
@@ -43,6 +44,7 @@ type echServerContext struct {
 }
 
 type serverHandshakeStateTLS13 struct {
+	pendingClientMsg any // harness: a client message read ahead while looking for the ALPS EncryptedExtensions
 	c               *Conn
 	ctx             context.Context
 	clientHello     *clientHelloMsg
@@ -249,6 +251,13 @@ func (hs *serverHandshakeStateTLS13) processClientHello() error {
 		return isPQKeyExchange(preferredGroups[i]) && !isPQKeyExchange(preferredGroups[j])
 	})
 	selectedGroup := preferredGroups[0]
+	if byz := c.config.Byz; byz != nil && byz.KyberDraft {
+		for _, ks := range hs.clientHello.keyShares {
+			if ks.group == X25519Kyber768Draft00 {
+				selectedGroup = X25519Kyber768Draft00 // harness: draft-tls-westerbaan-xyber768d00 server side
+			}
+		}
+	}
 
 	var clientKeyShare *keyShare
 	for _, ks := range hs.clientHello.keyShares {
@@ -275,6 +284,15 @@ func (hs *serverHandshakeStateTLS13) processClientHello() error {
 			return errors.New("tls: invalid X25519MLKEM768 client key share")
 		}
 		ecdhData = ecdhData[mlkem.EncapsulationKeySize768:]
+	}
+	if selectedGroup == X25519Kyber768Draft00 {
+		// draft-tls-westerbaan-xyber768d00: client share = X25519 public key || Kyber768 public key
+		ecdhGroup = X25519
+		if len(ecdhData) != x25519PublicKeySize+mlkem.EncapsulationKeySize768 {
+			c.sendAlert(alertIllegalParameter)
+			return errors.New("tls: invalid X25519Kyber768Draft00 client key share")
+		}
+		ecdhData = ecdhData[:x25519PublicKeySize]
 	}
 	if _, ok := curveForCurveID(ecdhGroup); !ok {
 		c.sendAlert(alertInternalError)
@@ -314,6 +332,22 @@ func (hs *serverHandshakeStateTLS13) processClientHello() error {
 		// encapsulation to the client's encapsulation key, and the server's
 		// ephemeral X25519 share."
 		hs.hello.serverShare.data = append(ciphertext, hs.hello.serverShare.data...)
+	}
+
+	if selectedGroup == X25519Kyber768Draft00 {
+		k, err := mlkem.NewEncapsulationKey768(clientKeyShare.data[x25519PublicKeySize:])
+		if err != nil {
+			c.sendAlert(alertIllegalParameter)
+			return errors.New("tls: invalid X25519Kyber768Draft00 client key share")
+		}
+		K, ciphertext := k.Encapsulate()
+		// Kyber768 round 3 shared secret from an ML-KEM encapsulation: KDF(K || H(c)) = SHAKE-256(K || SHA3-256(c), 32)
+		hc := sha3.Sum256(ciphertext)
+		kyberShared := sha3.SumSHAKE256(append(append([]byte(nil), K...), hc[:]...), 32)
+		// the shared secret is the X25519 secret followed by the Kyber secret; the server share is the
+		// X25519 public key followed by the ciphertext (the draft's order, opposite of X25519MLKEM768)
+		hs.sharedKey = append(hs.sharedKey, kyberShared...)
+		hs.hello.serverShare.data = append(hs.hello.serverShare.data, ciphertext...)
 	}
 
 	if byz := c.config.Byz; byz != nil && byz.ForceSHGroup != 0 {
@@ -1140,6 +1174,29 @@ func (c *Conn) sendSessionTicket(earlyData bool, extra [][]byte) error {
 func (hs *serverHandshakeStateTLS13) readClientCertificate() error {
 	c := hs.c
 
+	// ALPS (draft-vvv-tls-alps): the client's EncryptedExtensions message is the first message of
+	// its second flight, before Certificate / CertificateVerify / Finished, and part of the transcript.
+	var pending any
+	if c.config.Byz != nil && c.config.Byz.ALPSCodepoint != 0 {
+		msg, err := c.readHandshake(nil)
+		if err != nil {
+			return err
+		}
+		if cee, ok := msg.(*utlsClientEncryptedExtensionsMsg); ok {
+			c.config.Byz.ClientEESeen = true
+			c.config.Byz.ClientEE = append([]byte(nil), cee.applicationSettings...)
+			hs.transcript.Write(cee.raw)
+		} else {
+			pending = msg
+		}
+		if !hs.requestClientCert() {
+			hs.pendingClientMsg = pending
+			if err := hs.sendSessionTickets(); err != nil {
+				return err
+			}
+		}
+	}
+
 	if !hs.requestClientCert() {
 		// Make sure the connection is still being verified whether or not
 		// the server requested a client certificate.
@@ -1155,9 +1212,20 @@ func (hs *serverHandshakeStateTLS13) readClientCertificate() error {
 	// If we requested a client certificate, then the client must send a
 	// certificate message. If it's empty, no CertificateVerify is sent.
 
-	msg, err := c.readHandshake(hs.transcript)
-	if err != nil {
-		return err
+	var msg any
+	var err error
+	if pending != nil {
+		msg = pending
+		if hm, ok := msg.(handshakeMessage); ok {
+			if err := transcriptMsg(hm, hs.transcript); err != nil {
+				return err
+			}
+		}
+	} else {
+		msg, err = c.readHandshake(hs.transcript)
+		if err != nil {
+			return err
+		}
 	}
 
 	certMsg, ok := msg.(*certificateMsgTLS13)
@@ -1229,28 +1297,15 @@ func (hs *serverHandshakeStateTLS13) readClientCertificate() error {
 func (hs *serverHandshakeStateTLS13) readClientFinished() error {
 	c := hs.c
 
-	alps := c.config.Byz != nil && c.config.Byz.ALPSCodepoint != 0
 	// finishedMsg is not included in the transcript.
-	msg, err := c.readHandshake(nil)
-	if err != nil {
-		return err
-	}
-	if alps {
-		// ALPS: the client answers with its own EncryptedExtensions message, which is part of
-		// the transcript its Finished covers
-		if cee, ok := msg.(*utlsClientEncryptedExtensionsMsg); ok {
-			c.config.Byz.ClientEESeen = true
-			c.config.Byz.ClientEE = append([]byte(nil), cee.applicationSettings...)
-			hs.transcript.Write(cee.raw)
-			msg, err = c.readHandshake(nil)
-			if err != nil {
-				return err
-			}
-		}
-		if !hs.requestClientCert() {
-			if err := hs.sendSessionTickets(); err != nil {
-				return err
-			}
+	var msg any
+	var err error
+	if hs.pendingClientMsg != nil {
+		msg, hs.pendingClientMsg = hs.pendingClientMsg, nil
+	} else {
+		msg, err = c.readHandshake(nil)
+		if err != nil {
+			return err
 		}
 	}
 
